@@ -1,0 +1,17 @@
+//go:build verif
+
+package cli
+
+import "io"
+
+// VerifRun runs the command in-process exactly as Run does (run.go), but with the three
+// streams and the argument vector injected.  It returns the status that Run would hand to
+// os.Exit (not yet reduced modulo 256 by the operating system).  Verification hook for C15;
+// compiled only with -tags verif.
+func VerifRun(args []string, stdin io.Reader, stdout, stderr io.Writer) int {
+	return (&cli{
+		inStream:  stdin,
+		outStream: stdout,
+		errStream: stderr,
+	}).run(append([]string(nil), args...))
+}
